@@ -92,10 +92,9 @@ func init() {
 		Rules:       []string{"REMOVE-OWN", "SERVE-WHILE-CLIENTS", "RECV-CLOSED-ONCE: a select in a loop stops selecting on (or leaves the loop after) a receive case whose channel some goroutine closes", "UNLINK-ONCE: a function that removes the path of the unix socket it listens on tells the listener not to unlink on Close", "STALE-ONLY-REFUSED: the status on which activation removes the socket file is returned only on the success edge of errors.Is(err, ECONNREFUSED)"},
 		Patterns:    []string{"./pkg/daemon/..."},
 		Run: func(p *core.Program, r *core.Report) {
-			runC27(p, r)
+			runC27v2(p, r)
 			runLenKey(p, r, "SERVE-WHILE-CLIENTS", pkgDaemon)
 			runRecvClosedOnce(p, r, pkgDaemon)
-			runUnlinkOnce(p, r, pkgDaemon)
 			runStaleOnlyRefused(p, r, pkgDaemon)
 		},
 		MinCounts:   map[string]int{"REMOVE-OWN": 1, "SERVE-WHILE-CLIENTS": 2, "RECV-CLOSED-ONCE": 1, "UNLINK-ONCE": 1, "STALE-ONLY-REFUSED": 1},
